@@ -17,7 +17,10 @@ def run(ctx):
     shapes = sorted(inp_data["shapes"], key=lambda x: json.dumps(x, sort_keys=True))
     ctx.rng.shuffle(shapes)
     if quick:
-        shapes = shapes[:400]
+        # every shape of the small special families (texts with a meaning of their own, generic resources), a sample of the rest
+        special = [x for x in shapes if x["txt"] != "plain"]
+        shapes = special + [x for x in shapes if x["txt"] == "plain"][:400 - len(special)]
+    ctx.cov["special_shapes"] = len([x for x in shapes if x["txt"] != "plain"])
     inp_data["shapes"] = shapes
     inp_data["stackings"] = sorted(inp_data["stackings"])
     inp = os.path.join(ctx.scratch, "vectors.json")
@@ -34,7 +37,7 @@ def run(ctx):
     cov = ctx.cov
     cov["evaluations"] = summary["pos"]
     cov["distinct_nontrivial"] = int(summary["note"]) + len(shapes)
-    cov["rule"] = ("TLC enumerates 2592 abstract metadata shapes x 6 marshaler stackings; each shape is concretised and round-tripped "
+    cov["rule"] = ("TLC enumerates 2620 abstract metadata shapes (2592 base, 20 text-class, 8 generic-resource) x 6 marshaler stackings; each shape is concretised and round-tripped "
                    "through 6 stackings (compression threshold placed exactly at / just above the inner encoding size), the protobuf "
                    "wire form, metadata YAML and the version/phase text forms; for a subset of shapes every truncation length and "
                    "four single-byte substitutions at every position of every stacking's encoding, plus a wrong key, are decoded "
